@@ -40,6 +40,7 @@ class FnSpec:
         self.r12 = False            # X.iter().any(c) -> vx_any(X.as_slice(), c)
         self.r12map = {}            # receiver text -> helper name for X.into_iter().filter(c).collect()
         self.r16 = False
+        self.slices = {}
         self.r12args = {}
         self.closure_keys = None    # expected parameter keys of all closures of the function, in order (alignment)
 
@@ -153,6 +154,12 @@ def parse_vspec(path):
             cur_fn.r12 = True
         elif kw == "r16":
             cur_fn.r16 = True
+        elif kw == "slices":
+            # slices data rest body:v header:a  — R18: `&NAME[a..b]` range indexing of these variables (s = slice
+            # reference (default), v = Vec, a = array) becomes a helper call whose `requires` is the bounds check
+            for w_ in rest.split():
+                nm, _, kd = w_.partition(":")
+                cur_fn.slices[nm] = kd or "s"
         elif kw == "r12arg":
             # r12arg <helper> <ghost argument text>: appended to the arguments of that R12c helper call
             hname, txt = rest.split(None, 1)
@@ -595,6 +602,23 @@ def process_fn(toks, it, fs: FnSpec, qual, ed: Edits, log, unit_in_trait_impl):
             if toks[pv].kind == "punct" and toks[pv].text == "::":
                 continue  # part of a longer path
             nx_ = next_sig(toks, b + 1, hi)
+            # pattern position (anywhere inside a match-arm pattern, e.g. `(C, 4) => ..`): an integer constant with a
+            # known value is replaced by that literal (R10 checks `C == value` at compile time)
+            if cval != "-":
+                q_ = b + 1
+                in_pat = False
+                while q_ < hi:
+                    tq = toks[q_]
+                    if tq.kind == "punct" and tq.text == "=>":
+                        in_pat = True; break
+                    if tq.kind == "punct" and tq.text in (";", "{", "}", "="):
+                        break
+                    if tq.kind == "punct" and tq.text in ("(", "["):
+                        q_ = match_close(toks, q_)
+                    q_ += 1
+                if in_pat:
+                    ed.replace(toks[a].pos, toks[b].end, cval)
+                    continue
             if nx_ is not None and toks[nx_].text == "=>" and toks[pv].kind == "punct" and toks[pv].text in ("{", ",", "}"):
                 # a constant used as a match-arm pattern: `C => e`  ->  `__vxc if __vxc == C() => e`
                 ed.replace(toks[a].pos, toks[b].end, "__vxc if __vxc == " + CONSTMOD + "::" + extconst_name(cpath) + "()")
@@ -692,6 +716,48 @@ def process_fn(toks, it, fs: FnSpec, qual, ed: Edits, log, unit_in_trait_impl):
         if cnt == 0:
             raise LostAnchor(f"{qual}: deref {ident} {op}: no occurrence")
         log["rewrites"].append({"rule": "R9", "fn": qual, "before": f"{ident} {op} …", "after": f"*{ident} {op} …", "count": cnt})
+    # R18 (listed variables): `&X[a..b]`, `&X[..b]`, `&X[a..]`  ->  vx_slice(X, a, b) / vx_slice_to(X, b) / vx_slice_from(X, a)
+    # (Verus has no range indexing on slices; the helpers' `requires a <= b <= len` is Rust's bounds check)
+    if fs.slices:
+        cnt18 = 0
+        sg18 = [k for k in range(lo, hi) if toks[k].kind not in ("ws", "comment")]
+        for ii in range(len(sg18) - 3):
+            t0, t1, t2 = toks[sg18[ii]], toks[sg18[ii + 1]], toks[sg18[ii + 2]]
+            if not (t0.kind == "punct" and t0.text == "&" and t1.kind == "ident" and t1.text in fs.slices and t2.text == "["):
+                continue
+            pvk = sg18[ii - 1] if ii > 0 else None
+            if pvk is not None and toks[pvk].kind == "punct" and toks[pvk].text == ".":
+                continue
+            close = match_close(toks, sg18[ii + 2])
+            # top-level `..` inside the brackets
+            dd = None
+            q = sg18[ii + 2] + 1
+            while q < close:
+                tq = toks[q]
+                if tq.kind == "punct" and tq.text in ("(", "[", "{"):
+                    q = match_close(toks, q)
+                elif tq.kind == "punct" and tq.text in ("..", "..="):
+                    dd = q; break
+                q += 1
+            if dd is None or toks[dd].text == "..=":
+                continue
+            has_a = next_sig(toks, sg18[ii + 2] + 1, dd) is not None
+            has_b = next_sig(toks, dd + 1, close) is not None
+            kind = fs.slices[t1.text]
+            x = {"s": t1.text, "v": t1.text + ".as_slice()", "a": "&" + t1.text}[kind]
+            if has_a and has_b:
+                ed.replace(t0.pos, toks[sg18[ii + 2]].end, f"vx_slice({x}, ")
+                ed.replace(toks[dd].pos, toks[dd].end, ", ")
+            elif has_b:
+                ed.replace(t0.pos, toks[dd].end, f"vx_slice_to({x}, ")
+            elif has_a:
+                ed.replace(t0.pos, toks[sg18[ii + 2]].end, f"vx_slice_from({x}, ")
+                ed.replace(toks[dd].pos, toks[dd].end, "")
+            else:
+                ed.replace(t0.pos, toks[dd].end, f"vx_slice_from({x}, 0")
+            ed.replace(toks[close].pos, toks[close].end, ")")
+            cnt18 += 1
+        log["rewrites"].append({"rule": "R18", "fn": qual, "before": "&X[a..b]", "after": "vx_slice(X, a, b)", "count": cnt18})
     # R17 (automatic): `for .. { if C { S; continue; } REST }`  ->  `for .. { if C { S; } else { REST } }`
     # (Verus's for loops have no `continue`; the two forms are the same control flow).  `continue` in while / loop is
     # supported by Verus and left alone.
